@@ -9,6 +9,8 @@ CONSTANTS
   EditTo <- NoEdit
   InvalidateOnEdit = TRUE
   IoMode = FALSE
+  Record = FALSE
+  MaxOps = 6
 INVARIANT EmittedSat
 INVARIANT Complete
 INVARIANT Coherent
